@@ -88,7 +88,7 @@ def clause_for(report, origin):
             return c
     return None
 
-def analyse(unit, vr, linemap, report):
+def analyse(unit, vr, linemap, report, gen_path=''):
     """Turn verus diagnostics into failures / undecided reasons."""
     failures = []
     undecided = []
@@ -112,6 +112,17 @@ def analyse(unit, vr, linemap, report):
             continue
         spans = []
         for sp in d.get('spans', []):
+            # a span inside a macro definition: use the outermost call site
+            e = sp.get('expansion')
+            while e:
+                sp2 = e['span']
+                sp = dict(sp2, is_primary=sp.get('is_primary'), label=sp.get('label'))
+                e = sp2.get('expansion')
+            if os.path.basename(sp.get('file_name', '')) != os.path.basename(gen_path):
+                spans.append({'gen_line': 0, 'primary': sp.get('is_primary'), 'label': sp.get('label'),
+                              'origin': {'kind': 'vstd', 'file': sp.get('file_name'), 'line': sp['line_start']},
+                              'text': (sp['text'][0]['text'].strip() if sp.get('text') else '')})
+                continue
             o = origin_of(linemap, sp['line_start'])
             spans.append({'gen_line': sp['line_start'], 'primary': sp.get('is_primary'), 'label': sp.get('label'),
                           'origin': o, 'text': (sp['text'][0]['text'].strip() if sp.get('text') else '')})
@@ -153,8 +164,8 @@ def analyse(unit, vr, linemap, report):
                 tags = ['C01']
         if clause is not None:
             where = '%s:%d' % (clause['vspec'], clause['first'])
-        elif sec and sec[0]['origin'] and sec[0]['origin']['kind'] == 'shim':
-            where = '%s:%d' % (sec[0]['origin']['file'], sec[0]['origin']['line'])
+        elif sec and sec[0]['origin'] and sec[0]['origin']['kind'] in ('shim', 'vstd') and site:
+            where = '%s:%d(%s:%d)' % (site['file'], site['line'], os.path.basename(sec[0]['origin']['file']), sec[0]['origin']['line'])
         elif site:
             where = '%s:%d' % (site['file'], site['line'])
         else:
@@ -205,7 +216,7 @@ def run_unit(name, outdir, repo='/repo', canary=False, contracts=None, extra=Non
     path = os.path.join(outdir, name + ('_canary' if canary else '') + '.rs')
     open(path, 'w').write(text)
     vr = run_verus(path, extra=extra)
-    failures, undecided = analyse(name, vr, linemap, u.report)
+    failures, undecided = analyse(name, vr, linemap, u.report, path)
     j = vr.get('json') or {}
     r = j.get('verification-results', {})
     res.update(report=u.report, failures=failures, undecided=undecided,
